@@ -7,7 +7,8 @@ EXTENDS TemporalityModel, TLC, Json
 
 CONSTANTS Cfg0,       \* configuration record (see TemporalityModel)
           MaxCycles,  \* bound on collection points
-          MaxOps      \* bound on measurements / registration changes per cycle
+          MaxOps,     \* bound on measurements / registration changes per cycle
+          MaxFault    \* bound on faulty collection points per history (callback errors, aborted collections)
 
 Cfg == WithTables(Cfg0)
 
@@ -25,7 +26,6 @@ Init == st = InitState(Cfg) /\ nops = 0 /\ nfault = 0 /\ act = [op |-> "Init"] /
 (* collection point whose Collect context is cancelled / expires: it reports nothing,    *)
 (* the statement does not speak about it, the model state does not change -- and the     *)
 (* next, healthy cycle is exact as always.                                               *)
-MaxFault == 1
 FailSets == IF Async(Cfg) /\ nfault < MaxFault THEN {{}} \cup {{c} : c \in 0..(Cfg.ncb - 1)} ELSE {{}}
 OfOf(obs, fail) == [a \in Attrs(Cfg) |-> obs[a] # 0 /\ CbOf(Cfg, a) \in fail /\ CbOf(Cfg, a) \in st.reg]
 
@@ -55,7 +55,8 @@ DoUnregister == \E c \in 1..(Cfg.ncb - 1) : Unreg(c) /\ hist' = Append(hist, act
 (* steps with no operation in between, in one of the two orders (see TOver in         *)
 (* Trace_Temporality).                                                                *)
 DoCollectPoint == \E obs \in Tables, fail \in FailSets : Collect(obs, fail) /\ hist' = Append(hist, act')
-DoAbortedPoint == \E obs \in Tables : Abort(obs) /\ hist' = Append(hist, act')
+(* (what an aborted collection leaves behind must not matter: one table, every set with the first value) *)
+DoAbortedPoint == Abort([a \in Attrs(Cfg) |-> 1]) /\ hist' = Append(hist, act')
 Next == DoRecord \/ DoRegister \/ DoUnregister \/ DoCollectPoint \/ DoAbortedPoint
 Spec == Init /\ [][Next]_vars
 
@@ -77,8 +78,7 @@ VBags(f) == [a \in Attrs(Cfg) |-> VBag(f[a])]
 (* an implementation (when it re-scales, what its bucket memory held before): there  *)
 (* every operation sequence is a state of its own.                                   *)
 View == <<st.k, st.reg, VBags(st.cur), st.prev, VBags(st.tot), VBags(st.totS), st.runV, VBags(st.runB),
-          st.dstart, nops, nfault, st.prevF, IF Cfg.wide THEN hist ELSE <<>>,
-          IF act.op = "Abort" THEN act.obs ELSE <<>>>>   \* (what an aborted collection left behind must not matter: try each)
+          st.dstart, nops, nfault, st.prevF, IF Cfg.wide THEN hist ELSE <<>>>>
 EmitEdge == act'.op = "Collect" => PrintT("EDGE " \o ToJson([path |-> hist, act |-> act', k |-> st'.k]))
 
 (* the statement on the model, as an action property: evaluated on every explored   *)
